@@ -513,7 +513,7 @@ func runC20(a *Analyzer, r *Results) {
 			if ok && Field(hb, "View").Key() != Root(fn.Params[2].Name()).Key() {
 				ok, why = false, "header view is "+PP(Field(hb, "View"))
 			}
-			r.Check("W6", props("C20", "C10"), "every factory method signs Build().Raw() of the header builder it embeds, at the header's height, typed for its own message kind, for this instance and as this member", shortName(fn), e.Pos(a), ok, why, "D")
+			r.Check("W6", props("C20", "C10", "C03"), "every factory method signs Build().Raw() of the header builder it embeds, at the header's height, typed for its own message kind, for this instance and as this member", shortName(fn), e.Pos(a), ok, why, "D")
 		}
 		if len(rets) == 0 {
 			r.Undecided = append(r.Undecided, c.id+": no return")
